@@ -64,6 +64,17 @@ CLAIMED["C16"] = {
             "tomllib is exercised, not modelled.",
     "design": "DESIGN.md §5 C16",
 }
+CLAIMED["C13"] = {
+    "text": "Partial by nature (thread timing is runtime behaviour). Proved: (1) a certificate, re-computed from a source scan on every "
+            "run, that every cache / global / module-level container or object / class attribute of src/flowmark is of a kind that "
+            "cannot carry information between calls; (2) for the abstract process whose only shared state is init-once cells, every call "
+            "returns its stand-alone result for every history and every interleaving (Coq, unbounded). Tied to the code by sequential "
+            "histories against fresh-interpreter baselines and by a deterministic scheduler that switches threads at every function call "
+            "inside flowmark/marko.",
+    "note": "Races below function-call granularity inside C extensions (re/regex) and Marko internals are exercised by free-running "
+            "threads only; the machine abstracts a call to 'reads of memo cells + pure function'.",
+    "design": "DESIGN.md §5 C13",
+}
 PENDING_REASON = "check not built yet in this revision (work in progress; see DESIGN.md §7 staging)"
 
 def main():
